@@ -139,11 +139,85 @@ func (fr *Frame) callAlt(alt FuncAlt, args []Val, st *State, pos token.Pos, inst
 	return fr.callFunction(alt.fn, args, alt.bindings, st, pos, instr)
 }
 
+// hasRecoveringDefer: has the frame registered (on the current path) a
+// deferred call whose function calls recover()?
+func (fr *Frame) hasRecoveringDefer(st *State) bool {
+	for _, d := range fr.defers {
+		flag, ok := st.cells[d.flag]
+		if !ok || flag.t() == "false" {
+			continue
+		}
+		if callee := d.instr.Call.StaticCallee(); callee != nil && callsRecover(callee, 0) {
+			return true
+		}
+	}
+	return false
+}
+
+func callsRecover(fn *ssa.Function, depth int) bool {
+	if fn == nil || depth > 2 {
+		return false
+	}
+	for _, b := range fn.Blocks {
+		for _, in := range b.Instrs {
+			c, ok := in.(ssa.CallInstruction)
+			if !ok {
+				continue
+			}
+			if bi, ok := c.Common().Value.(*ssa.Builtin); ok && bi.Name() == "recover" {
+				return true
+			}
+			if cf := c.Common().StaticCallee(); cf != nil && inModule(cf) && callsRecover(cf, depth+1) {
+				return true
+			}
+		}
+	}
+	for _, an := range fn.AnonFuncs {
+		if callsRecover(an, depth+1) {
+			return true
+		}
+	}
+	return false
+}
+
 // panicPoint is a place where code outside the contracts runs and may panic.
 // If the function under verification recovers (a `recovers` clause), its
 // named results as they are right now are what the caller will see.
 func (fr *Frame) panicPoint(st *State, pos token.Pos, what string) {
 	fx := fr.fx
+	// a panic is stopped by the nearest enclosing call that has registered a
+	// deferred function which recovers: for an inlined helper that call then
+	// returns - after its deferred calls - with its named results as they are
+	// at that moment (zero values for unnamed ones), and its caller goes on
+	for i := len(fx.frameStack) - 1; i >= 0; i-- {
+		f := fx.frameStack[i]
+		if f.isRoot || f == fx.rootFrame {
+			break
+		}
+		if !f.hasRecoveringDefer(st) || f.rets == nil {
+			continue
+		}
+		pk := fx.decls.Fresh("panics", sBool)
+		ps := st.clone()
+		ps.guard = and(st.guard, pk)
+		st.guard = and(st.guard, not(pk))
+		f.runDefers(ps, pos)
+		var vals []Val
+		res := f.fn.Signature.Results()
+		for k := 0; k < res.Len(); k++ {
+			sh := shapeOf(res.At(k).Type())
+			if n := res.At(k).Name(); n != "" && n != "_" {
+				if v, ok := f.localByName(n, ps); ok {
+					vals = append(vals, v)
+					continue
+				}
+			}
+			vals = append(vals, zeroVal(sh))
+		}
+		*f.rets = append(*f.rets, retPoint{st: ps, vals: vals})
+		fx.noteAssumption("a panic raised by " + what + " inside " + f.fn.Name() + " is recovered by that function's deferred handler: it returns its named results as they are at that moment")
+		return
+	}
 	root := fx.rootSpec
 	if root == nil || len(root.Recovers) == 0 || fx.rootFrame == nil {
 		return
@@ -1088,7 +1162,18 @@ func (fr *Frame) builtin(name string, args []Val, st *State, pos token.Pos, inst
 	case "recover":
 		return fr.doRecover(st, instr)
 	case "close":
-		fx.noteAssumption("close of a channel is not modelled (closing a closed or nil channel panics)")
+		// only the fact that (and which) channel was closed is recorded:
+		// closes() counts them, lastclosed() is the latest one
+		fx.noteAssumption("close of a channel: only the event is recorded (closing a closed or nil channel panics: not modelled)")
+		intSh := shapeOf(types.Typ[types.Int])
+		cnt := fx.ghostCell(st, "closes", intSh, mkInt(intSh, "0"))
+		cur, live := st.cells[cnt]
+		if !live {
+			cur = mkInt(intSh, "0")
+		}
+		st.cells[cnt] = mkInt(intSh, add(cur.t(), "1"))
+		last := fx.ghostCell(st, "lastclosed", args[0].sh, zeroVal(args[0].sh))
+		st.cells[last] = args[0]
 		return nil
 	}
 	unsupp("builtin %s on %s", name, args[0].sh.key)
